@@ -27,8 +27,8 @@ M = [  # (name, file, old, new, property, --only, substring expected in a VIOLAT
      'yw = [(f(x),w) for (x,w) in zip(samples, weights) if w > tol]\n  return mean(*zip(*yw))', 'C18', 'C18/expectation', 'textbook-weighted-expectation'),
     ('bootstrap-ignores-liveness', 'mystic/abstract_solver.py', '(ExtraArgs is None or ExtraArgs is _args) and self._live:', '(ExtraArgs is None or ExtraArgs is _args):', 'C02', 'bootstrap', 'stored-objective-reused-only-while-live'),
     ('powell-gen0-unconstrained', 'mystic/scipy_optimize.py', "            x = asarray(constraints(x), dtype='float64')\n            N = len(x)", '            N = len(x)', 'C01', 'Powell._Step/generation=0', 'constrained-guess'),
-    ('powell-wrong-direction-replaced', 'mystic/scipy_optimize.py', '                    direc[bigind] = direc[-1]', '                    direc[0] = direc[-1]', 'C08', 'generation>1', 'direction-set-updated'),
-    ('powell-extrapolation-test-sign', 'mystic/scipy_optimize.py', '                    t -= delta*temp*temp', '                    t += delta*temp*temp', 'C08', 'generation>1', 'extrapolation-test'),
+    ('powell-linesearch-without-cap', 'mystic/scipy_optimize.py', '                    fval, x, direc1 = _linesearch_powell(cost, x, direc1, tol=xtol*100, maxiter=imax)', '                    fval, x, direc1 = _linesearch_powell(cost, x, direc1, tol=xtol*100)', 'C08', 'generation>1', 'every-line-search'),
+    ('powell-bookkeeping-keeps-old-fx', 'mystic/scipy_optimize.py', '            fx = fval', '            fx = fx', 'C08', 'generation>1', 'bookkeeping'),
     ('nm-initial-simplex-offset', 'mystic/scipy_optimize.py', '                y[k] = val[k]', '                y[k] = val[0]', 'C08', 'generation=1', 'each-new-vertex'),
     ('nm-simplex-outside-ranges', 'mystic/scipy_optimize.py', '        val[val>hi] = hi[val>hi]', '        val[val>hi] = hi[val>hi] + 1', 'C02', 'setSimplex', 'offsets-inside-the-ranges'),
     ('deepcopy-stays-live', 'mystic/abstract_solver.py', '        result._live = False\n        return result', '        return result', 'C06', 'deepcopy', 'rebuilds-its-objective'),
@@ -43,6 +43,20 @@ M = [  # (name, file, old, new, property, --only, substring expected in a VIOLAT
     ('impose_at-off-by-one', 'mystic/constraints.py', '            x[[i for i in index if i < len(x)]] = target', '            x[[i for i in index if i < len(x)-1]] = target', 'C16', 'C16/', 'pinned-entries'),
     ('partial-shifted-index', 'mystic/tools.py', '                try: x[i] = j\n                except IndexError: pass', '                try: x[i-1] = j\n                except IndexError: pass', 'C16', 'C16/tools', 'addressed-entries-fixed'),
     ('collapse-target-zero-is-falsy', 'mystic/abstract_solver.py', '                if t is None:\n                    t = cn.impose_at(*to.select_params(self,collapses[k]))', '                if not t:\n                    t = cn.impose_at(*to.select_params(self,collapses[k]))', 'C11', 'collapse-constraints', 'exactly-at-their-target'),
+    ('product-weights-summed', 'mystic/math/discrete.py', '      _weights.append(product(wts))', '      _weights.append(sum(wts))', 'C19', 'weights-positions', 'point-weights-are-products'),
+    ('flatten-positions-first', 'mystic/math/discrete.py', 'rv = [(i.weights,i.positions) for i in c]', 'rv = [(i.positions,i.weights) for i in c]', 'C19', 'flatten-unflatten', 'flatten-is-weights-then-positions'),
+    ('pof-strict', 'mystic/math/discrete.py', '      if f(x[0]) <= 0.0:', '      if f(x[0]) < 0.0:', 'C19', 'expect-pof', 'pof-is-the-total-weight'),
+    ('mask-replaced-not-extended', 'mystic/mask.py', "        kwds['mask'].update(mask)", "        kwds['mask'] = mask", 'C11', '_extend_mask', 'mask-is-the-union'),
+    ('collapse-applied-despite-other-stop', 'mystic/abstract_solver.py', 'stop = not all(k.startswith("Collapse") for k in stop.split("; "))', 'stop = not any(k.startswith("Collapse") for k in stop.split("; "))', 'C11', 'get_collapses', 'nothing-applied-when-another-stop'),
+    ('generate_penalty-type-from-doc', 'mystic/symbolic.py', "            if 'inequality' in condition.__name__: ", "            if 'inequality' in condition.__doc__: ", 'C14', 'generate_penalty', 'sum-of-one-quadratic-term'),
+    ('rounded-choice-swapped', 'mystic/constraints.py', '            xp = choose(mask, (x,xp)).astype(float)\n            return f(xtype(xp), *args, **kwds)\n        func.index = _index\n        func.digits = _digits',
+     '            xp = choose(mask, (xp,x)).astype(float)\n            return f(xtype(xp), *args, **kwds)\n        func.index = _index\n        func.digits = _digits', 'C16', 'constraints.rounded', 'selected-entries-rounded'),
+    ('ensemble-terminated-any-member', 'mystic/abstract_ensemble_solver.py', '            if False in end: return no', '            if not any(end): return no', 'C05', 'ensemble.Terminated', 'not-terminated-while-a-member-runs'),
+    ('ensemble-total-from-best', 'mystic/ensemble.py', '    all_fcalls = solver._total_evals', '    all_fcalls = solver.evaluations', 'C09', 'C09/lattice', 'total-evaluation-count'),
+    ('buckshot-one-point-short', 'mystic/ensemble.py', '        return samplepts(lower,upper,npts, self._dist)', '        return samplepts(lower,upper,npts-1, self._dist)', 'C09', 'Buckshot', 'exactly-as-many-members'),
+    ('timelimits-reset-noop', 'mystic/termination.py', '        start[0] = timer()\n    delta', '        pass\n    delta', 'C10', 'TimeLimits', 'satisfied-iff-elapsed'),
+    ('stop-dump-before-finalize', 'mystic/abstract_solver.py', "            if self.Terminated(): # then cleanup/finalize\n                self.Finalize()\n", "", 'C06', 'STOP', 'finalized'),
+    ('monitor-slice-reversed', 'mystic/monitors.py', '            m._y = self._y[y]', '            m._y = self._x[y]', 'C20', 'Monitor.slice', 'holds-exactly-the-sliced-records'),
     ('or_-aliased-fixed-point-test', 'mystic/constraints.py', '                ci = next(_constraints)(x[-n][:])', '                ci = next(_constraints)(x[-n])', 'C17', 'or_/in-place', 'fixed-point-of-some-member'),
 ]
 
